@@ -5,6 +5,7 @@ import contextlib
 import io
 import math
 import struct
+import time
 import traceback
 
 from hypothesis import strategies as st
@@ -33,7 +34,7 @@ ASSUMPTIONS = [
     "float results are compared bit for bit (CPython float arithmetic and irsem f64 arithmetic are the same IEEE doubles)",
 ]
 TRUSTED = ["CPython", "Hypothesis", "vf/irsem.py (reference interpreter)"]
-REGISTER = False
+REGISTER = True
 TECHNIQUE = "differential: CPython exec vs python_to_ir + reference IR interpreter on Hypothesis-generated annotated functions"
 LEVEL_TEXT = (
     "Exploration with CPython itself as oracle: generated annotated functions are executed by CPython and, after "
@@ -44,7 +45,7 @@ LEVEL_TEXT = (
 
 I64_MIN, I64_MAX = -(1 << 63), (1 << 63) - 1
 ITER_BUDGET = 400
-FUEL = 400000
+SHRINK_S = 40  # wall-clock cap on Hypothesis' shrink phase per worker (safety net, DESIGN 2.2)
 
 KF_FLOORDIV = "C36-KF1"  # // lowered to truncating division
 KF_FORLATCH = "C36-KF2"  # for loop without a latch block: control flow in the body / continue -> KeyError
@@ -406,6 +407,7 @@ def evaluate(case, stats=None, excl=frozenset()):
     compared = 0
     all_events = set()
     tracked = instrumented_namespace(ast.parse(src))
+    ninstr = sum(len(b.instructions) for f in module.functions for b in f.blocks)
     for index, (fname, jargs) in enumerate(calls):
         args = decode_args(jargs)
         try:
@@ -425,7 +427,8 @@ def evaluate(case, stats=None, excl=frozenset()):
         compared += 1
         all_events |= events
         fail = {"call": index, "fname": fname, "args": args, "events": events, "expect": _obsval(expect)}
-        m = irsem.Machine(module, 64, fuel=FUEL)
+        # between two ticks of the instrumented run (loop iteration, function entry) no IR instruction can repeat
+        m = irsem.Machine(module, 64, fuel=(iters + 2) * ninstr + 100)
         try:
             got = m.call(fname, list(args))
         except irsem.Undef as e:
@@ -824,7 +827,11 @@ def _worker(arg):
     flags = make_flags(excl)
     flags["depth"] = 4 if deep else 3
 
+    shrink = {"t0": None}
+
     def prop(case):
+        if shrink["t0"] is not None and time.time() - shrink["t0"] > SHRINK_S:
+            return None  # cap on the shrink phase: stop accepting smaller examples
         try:
             fail, compared, events = evaluate(case, stats, excl)
         except Discard as d:
@@ -841,9 +848,17 @@ def _worker(arg):
             case if nt else None,
             classes=["compared_calls:%d" % min(compared, 3)] + (sorted(feats | events) if compared else []),
         )
-        return fail["msg"] if fail else None
+        if fail is None:
+            return None
+        kid = classify(case, fail["msg"])
+        if kid and kid in excl:
+            stats.known[kid] += 1
+            return None
+        if shrink["t0"] is None:
+            shrink["t0"] = time.time()
+        return fail["msg"]
 
-    fails = hyp_search(case_strategy(flags), prop, n, seed, stats, classify=classify)
+    fails = hyp_search(case_strategy(flags), prop, n, seed, stats)
     for flag, kid in FLAG_OF.items():
         if not flags[flag]:
             stats.excluded[kid] += n
